@@ -76,8 +76,8 @@ pub fn unembed_int(n: i64) -> Option<i64> {
 /// milli-units -> decimal text.  Sentinels: +-1_000_000_001 => +-1e308, 1_000_000_003 => 5e-324.
 pub fn flt_text(m: i64) -> String {
     match m {
-        1_000_000_001 => "1e308".to_string(),
-        -1_000_000_001 => "-1e308".to_string(),
+        1_000_000_001 => "1e+308".to_string(),
+        -1_000_000_001 => "-1e+308".to_string(),
         1_000_000_003 => "5e-324".to_string(),
         _ => {
             let sign = if m < 0 { "-" } else { "" };
